@@ -234,7 +234,7 @@ def run(R):
             "extract_futures raises for a yielded object that is not a future: the TypeError completes the task directly instead of being thrown in at the "
             "yield (a try/except around the yield no longer catches it, and the futures yielded alongside are never awaited)")
     n_slots = common.exception_slot_types(R, "C02.ERR-TYPE", ("futures.FutureBase", "async_task.AsyncTask", "batching.BatchBase", "batching.BatchItemBase"))
-    R.need(n_slots >= 6, "fewer exception-carrying slots in the .pxd files than confirmed by hand (%d < 6)" % n_slots)
+    R.need(n_slots >= 4, "fewer exception-carrying slots in the .pxd files than confirmed by hand (%d < 4)" % n_slots)
     capture_guard(R, ro, "C02.CAPTURE-GUARD")
     R.require_min("C02.FLOW-THROW", 3)
     R.require_min("C02.ESCAPE", 3)
